@@ -12,7 +12,7 @@ RULE = (
     "Hypothesis-generated pairs of 1-3-D label arrays (free voxel labelling and boxes, sides <=16/8/5; "
     "run-length encoded 1-D arrays of up to 140k voxels; 2-D<=12x12 / 3-D<=6^3 for clDice) x dtype in "
     "bool/uint8-64/int8-64/float32/64 x reference label x prediction label or list of 1-4 labels (present, "
-    "absent, repeated, or not representable in the array dtype: 256 in uint8, 2^32+1; negative labels are outside the documented domain) or no selection on binary masks. Oracle: set formulas on coordinate sets. A case is "
+    "absent, repeated, or not representable in the array dtype: 256 in uint8, 2^32+1; a quarter of the cases with all labels shifted by 1000 ... 2^40 in 32/64-bit dtypes; negative labels are outside the documented domain) or no selection on binary masks. Oracle: set formulas on coordinate sets. A case is "
     "non-trivial when both selected masks are non-empty and neither equal nor disjoint; distinct = distinct "
     "canonical JSON of the case."
 )
@@ -46,7 +46,21 @@ def sel_case(draw):
         pool = [a, a + g]
         pred_idx = [a, a + g] + [draw(st.sampled_from(pool)) for _ in range(g - 1)]
         pred_idx = list(draw(st.permutations(pred_idx)))
-    return {"kind": "sel", "layout": draw(st.sampled_from(["C", "C", "F", "neg", "T", "step"])), "dtype": dtype, "ref": ref.tolist(), "pred": pred.tolist(), "ref_idx": ref_idx, "pred_idx": pred_idx}
+    case = {"kind": "sel", "layout": draw(st.sampled_from(["C", "C", "F", "neg", "T", "step"])), "dtype": dtype, "ref": ref.tolist(), "pred": pred.tolist(), "ref_idx": ref_idx, "pred_idx": pred_idx}
+    if dtype in ("uint8", "int8") and not isinstance(pred_idx, list) and draw(st.integers(0, 3)) == 0:
+        # the two arrays need not share a dtype: the prediction is 16 bit wide and its labels (and the queried
+        # prediction label) are 256 higher - values the reference's dtype cannot hold
+        case["pred_dtype"] = draw(st.sampled_from(["uint16", "int32"]))
+        if 0 < pred_idx <= 7:
+            case["pred_idx"] = pred_idx + 256
+    elif draw(st.integers(0, 3)) == 0:
+        # neighbouring labels far from zero: every non-zero label of the maps and of the query is shifted by the same amount
+        case["offset"] = draw(st.sampled_from([1000, 200000, 2**24, 2**31 - 20, 2**40]))
+        case["dtype"] = draw(st.sampled_from([d for d in ("int32", "uint32", "int64", "uint64", "float64") if case["offset"] + 8 <= (np.iinfo(d).max if d != "float64" else 2**52)]))
+        shift = lambda l: l + case["offset"] if 0 < l <= 7 else l  # noqa: E731
+        case["ref_idx"] = shift(ref_idx)
+        case["pred_idx"] = [shift(l) for l in pred_idx] if isinstance(pred_idx, list) else shift(pred_idx)
+    return case
 
 
 @st.composite
@@ -103,7 +117,12 @@ def _arrays(case):
         p = np.concatenate([np.full(n, b) for a, b, n in case["runs"]])
         return r.astype(case["dtype"]), p.astype(case["dtype"])
     lay = case.get("layout", "C")
-    return gen.with_layout(np.array(case["ref"]).astype(case["dtype"]), lay), gen.with_layout(np.array(case["pred"]).astype(case["dtype"]), lay)
+    r, p = np.array(case["ref"]), np.array(case["pred"])
+    if case.get("offset"):
+        r, p = np.where(r != 0, r + case["offset"], 0), np.where(p != 0, p + case["offset"], 0)
+    if case.get("pred_dtype"):
+        return gen.with_layout(r.astype(case["dtype"]), lay), gen.with_layout(np.where(p != 0, p + 256, 0).astype(case["pred_dtype"]), lay)
+    return gen.with_layout(r.astype(case["dtype"]), lay), gen.with_layout(p.astype(case["dtype"]), lay)
 
 
 def check(case, stats):
@@ -141,7 +160,7 @@ def check(case, stats):
             nR, nP, nI, nU = len(R), len(Pset), len(R & Pset), len(R | Pset)
 
     nontrivial = nR > 0 and nP > 0 and 0 < nI and not (nI == nR == nP)
-    classes = [kind, f"dtype={case['dtype']}", f"ndim={ref.ndim}"]
+    classes = [kind, f"dtype={case['dtype']}", f"ndim={ref.ndim}"] + (["labels_far_from_zero"] if case.get("offset") else []) + (["prediction_in_a_wider_dtype"] if case.get("pred_dtype") else [])
     if isinstance(pred_idx, list):
         classes.append("pred_list")
     if ref_idx is not None and np.issubdtype(ref.dtype, np.integer):
